@@ -236,6 +236,9 @@ inductive Enc where
   | gray
   | black
   | white
+  /-- SET/FADE_TO_COLOR_FROM_CHANNELS with channel indices `a b c`: a player without a signal source (every player
+  made by the C interface) shows black -/
+  | chan (a b c : Nat)
   deriving DecidableEq, Inhabited
 
 /-- the colour an encoding can spell -/
@@ -245,6 +248,7 @@ def Enc.fits (en : Enc) (r g b : Nat) : Prop :=
   | .gray => r = g ∧ b = g
   | .black => r = 0 ∧ g = 0 ∧ b = 0
   | .white => r = 255 ∧ g = 255 ∧ b = 255
+  | .chan i j k => (r = 0 ∧ g = 0 ∧ b = 0) ∧ i < 256 ∧ j < 256 ∧ k < 256
 
 inductive Cmd where
   | sleep (d : Nat)
@@ -262,10 +266,12 @@ def Cmd.bytes : Cmd → Bytes
   | .set .gray _ g _ d => UInt8.ofNat 5 :: UInt8.ofNat g :: varint d
   | .set .black _ _ _ d => UInt8.ofNat 6 :: varint d
   | .set .white _ _ _ d => UInt8.ofNat 7 :: varint d
+  | .set (.chan a b c) _ _ _ d => UInt8.ofNat 16 :: UInt8.ofNat a :: UInt8.ofNat b :: UInt8.ofNat c :: varint d
   | .fade .rgb r g b d => UInt8.ofNat 8 :: UInt8.ofNat r :: UInt8.ofNat g :: UInt8.ofNat b :: varint d
   | .fade .gray _ g _ d => UInt8.ofNat 9 :: UInt8.ofNat g :: varint d
   | .fade .black _ _ _ d => UInt8.ofNat 10 :: varint d
   | .fade .white _ _ _ d => UInt8.ofNat 11 :: varint d
+  | .fade (.chan a b c) _ _ _ d => UInt8.ofNat 17 :: UInt8.ofNat a :: UInt8.ofNat b :: UInt8.ofNat c :: varint d
   | .pyro m => [UInt8.ofNat 21, UInt8.ofNat m]
   | .pyroSet m => [UInt8.ofNat 20, UInt8.ofNat m]
   | .nop => [UInt8.ofNat 1]
@@ -457,6 +463,27 @@ theorem exec_set (e : Exec) (T R : Nat) (en : Enc) (r g b d : Nat) (rest : Bytes
     congr 1
     simp only; omega
 
+  | chan i j k =>
+    obtain ⟨⟨rfl, rfl, rfl⟩, _, _, _⟩ := hfit
+    obtain ⟨g1, g2, g3, g4, g5⟩ := drop_cons4 e.prog e.pc _ _ _ _ _ hdrop
+    simp only [Cmd.bytes, List.length_cons] at hsize ⊢
+    have b1 := byteAt_of_get e.prog e.size e.pc _ (by omega) g1
+    have b2 := byteAt_of_get e.prog e.size (e.pc + 1) _ (by omega) g2
+    have b3 := byteAt_of_get e.prog e.size (e.pc + 2) _ (by omega) g3
+    have b4 := byteAt_of_get e.prog e.size (e.pc + 3) _ (by omega) g4
+    unfold execCommand
+    rw [if_neg (by simp [hr.ended]), nextByte_eq, b1]
+    simp only [toNat_ofNat_byte 16 (by decide)]
+    rw [if_neg (by decide), if_neg (by decide), if_neg (by decide), if_neg (by decide), if_neg (by decide), if_neg (by decide),
+      if_neg (by decide), if_neg (by decide), if_neg (by decide), if_neg (by decide), if_neg (by decide), if_neg (by decide),
+      if_neg (by decide), if_neg (by decide), if_neg (by decide), if_pos (by decide)]
+    unfold next3
+    simp only [nextByte_eq, b2, b3, b4]
+    rw [setTo_exact { e with pc := e.pc + 1 + 1 + 1 + 1 } T black d rest hd hcR hr.wake (by simpa using g5)
+      (by simp only; omega) hT]
+    congr 1
+    simp only; omega
+
 /-- what a fade command leaves behind, before the values are simplified -/
 def fadeStart (e : Exec) (T r g b d len : Nat) : Exec :=
   { e with pc := e.pc + len, cumulative := e.cumulative + 20 * d, nextWakeup := T + 20 * d,
@@ -561,6 +588,29 @@ theorem exec_fade (e : Exec) (T R : Nat) (en : Enc) (r g b d : Nat) (rest : Byte
       if_neg (by decide), if_neg (by decide), if_neg (by decide), if_neg (by decide), if_neg (by decide), if_pos (by decide)]
     rw [show white = ((255, 255, 255) : Color) from rfl,
       fadeTo_exact { e with pc := e.pc + 1 } T 255 255 255 d rest hd hcR hr.wake hr.start (by simpa using h1)
+      (by simp only; omega) hT, fadeResult_pc]
+    congr 1
+    omega
+
+  | chan i j k =>
+    obtain ⟨⟨rfl, rfl, rfl⟩, _, _, _⟩ := hfit
+    obtain ⟨g1, g2, g3, g4, g5⟩ := drop_cons4 e.prog e.pc _ _ _ _ _ hdrop
+    simp only [Cmd.bytes, List.length_cons] at hsize ⊢
+    have b1 := byteAt_of_get e.prog e.size e.pc _ (by omega) g1
+    have b2 := byteAt_of_get e.prog e.size (e.pc + 1) _ (by omega) g2
+    have b3 := byteAt_of_get e.prog e.size (e.pc + 2) _ (by omega) g3
+    have b4 := byteAt_of_get e.prog e.size (e.pc + 3) _ (by omega) g4
+    unfold execCommand
+    rw [if_neg (by simp [hr.ended]), nextByte_eq, b1]
+    simp only [toNat_ofNat_byte 17 (by decide)]
+    rw [if_neg (by decide), if_neg (by decide), if_neg (by decide), if_neg (by decide), if_neg (by decide), if_neg (by decide),
+      if_neg (by decide), if_neg (by decide), if_neg (by decide), if_neg (by decide), if_neg (by decide), if_neg (by decide),
+      if_neg (by decide), if_neg (by decide), if_neg (by decide), if_neg (by decide), if_pos (by decide)]
+    unfold next3
+    simp only [nextByte_eq, b2, b3, b4]
+    have e4 : ({ e with pc := e.pc + 1 + 1 + 1 + 1 } : Exec) = { e with pc := e.pc + 4 } := rfl
+    rw [e4, show black = ((0, 0, 0) : Color) from rfl,
+      fadeTo_exact { e with pc := e.pc + 4 } T 0 0 0 d rest hd hcR hr.wake hr.start (by simpa using g5)
       (by simp only; omega) hT, fadeResult_pc]
     congr 1
     omega
